@@ -458,6 +458,12 @@ def contract_call(X, ins, key, c, argv, iface_sig=None):
                     post.set(hk, nv)
                 V.notes.append('callback %s passed to %s: its effects are havocked (called any number of times)' % (a.key, key))
         X.heap = post
+        from .symex import heap_typing_fact
+        for hk in list(post.d.keys()):
+            if not post.get(hk).eq(pre.get(hk)):
+                f_ = heap_typing_fact(V, post, hk, post.get(hk))
+                if f_ is not None:
+                    X.hyp(f_)
         # results
         res = []
         renv = dict(env)
@@ -471,6 +477,9 @@ def contract_call(X, ins, key, c, argv, iface_sig=None):
             rsv.append(sv)
             if rn and rn != '_':
                 renv[rn] = sv
+        if c.get('ghostsets'):
+            from .verify import apply_ghostsets
+            apply_ghostsets(V, c, pkg, renv, post, pre, rsv, z3.BoolVal(True), hyp=X.hyp)
         ev2 = SpecEval(V, pkg, renv, post, old=pre, results=rsv)
         ev2.in_callee = True
         topc = V.contracts['funcs'].get(V.fnkey) or {}
